@@ -213,6 +213,11 @@ bool ProcessExecutor::handleRead(int rpipe, unsigned int &result, const std::str
     unsigned int len = 0;
     bytes_to_read = sizeof(len);
     bytes_read = read(rpipe, &len, bytes_to_read);
+    if (bytes_read == 0) {
+        // the child process died in the middle of a message - handle it like a premature exit
+        ++result;
+        return false;
+    }
     if (bytes_read <= 0) {
         const int err = errno;
         std::cerr << "#### ThreadExecutor::handleRead(" << filename << ") error (len) for type " << int(type) << ": " << std::strerror(err) << std::endl;
@@ -229,6 +234,11 @@ bool ProcessExecutor::handleRead(int rpipe, unsigned int &result, const std::str
         bytes_to_read = len;
         do {
             bytes_read = read(rpipe, data_start, bytes_to_read);
+            if (bytes_read == 0) {
+                // the child process died in the middle of a message - handle it like a premature exit
+                ++result;
+                return false;
+            }
             if (bytes_read <= 0) {
                 const int err = errno;
                 std::cerr << "#### ThreadExecutor::handleRead(" << filename << ") error (buf) for type" << int(type) << ": " << std::strerror(err) << std::endl;
